@@ -595,6 +595,9 @@ def exec_job(job, workdir):
             if rc != 0 or not os.path.exists(nxt) or "not side-effect free" in so + se:
                 return fail("error", "goto-instrument --apply-loop-contracts failed")
             cur = nxt
+        if job.kind == "P" and job.split:
+            base = ["cbmc", cur, "--json-ui"] + (["--unwind", str(job.unwind), "--unwinding-assertions"] if job.unwind else []) + job.extra
+            return exec_split(job, base, d, t0, log, fail)
         cmd = ["cbmc", cur, "--json-ui", "--trace"]
         if job.solver == "z3":
             cmd += ["--z3"]
@@ -692,7 +695,7 @@ def exec_split(job, base, d, t0, log, fail):
             traces.update({pref + k: v for k, v in parsed[1].items()})
             if p is None:
                 log.append(parsed[2][-3000:])
-                if "SMT2" not in parsed[2] and "VERIFICATION SUCCESSFUL" not in parsed[2]:
+                if job.kind == "R" and "SMT2" not in parsed[2] and "VERIFICATION SUCCESSFUL" not in parsed[2]:
                     return fail("error", "Layer R job did not go through the SMT2 back end")
         elif p is None:
             return fail(st, "batch part: %s" % (parsed or ""))
